@@ -954,21 +954,58 @@ func c09UnfoldAccumulators(ctx *Ctx, r *Report) {
 func c09ConstraintsThroughReferences(ctx *Ctx, r *Report) {
 	fn := ctx.LookupFunc("internal/ast", "FieldAssignment")
 	fd, p := ctx.DeclOf(fn)
-	if fd == nil {
-		r.Undecided("anchor lost: ast.FieldAssignment")
+	der := ctx.LookupMethod("internal/ast", "BuilderGenerator", "structObjectToBuilder")
+	dfd, _ := ctx.DeclOf(der)
+	if fd == nil || dfd == nil {
+		r.Undecided("anchor lost: ast.FieldAssignment / BuilderGenerator.structObjectToBuilder")
 		return
 	}
 	info := p.TypesInfo
+	// (a) references: the derivation applies the constraints of the type the field's reference resolves to
 	resolves := false
-	ast.Inspect(fd.Body, func(m ast.Node) bool {
-		if c, ok := m.(*ast.CallExpr); ok {
-			if f := callee(info, c); f != nil && (strings.HasPrefix(f.Name(), "Resolve") || strings.HasPrefix(f.Name(), "Locate")) {
-				resolves = true
+	for _, body := range []*ast.BlockStmt{fd.Body, dfd.Body} {
+		ast.Inspect(body, func(m ast.Node) bool {
+			c, ok := m.(*ast.CallExpr)
+			if !ok {
+				return true
 			}
-		}
-		return true
-	})
+			f := callee(info, c)
+			if f == nil || f.Name() != "WithTypeConstraints" || len(c.Args) != 1 {
+				return true
+			}
+			// the argument comes from a resolved type
+			if root := rootIdent(c.Args[0]); root != nil {
+				ast.Inspect(body, func(k ast.Node) bool {
+					as, ok := k.(*ast.AssignStmt)
+					if !ok || len(as.Lhs) == 0 || len(as.Rhs) != 1 {
+						return true
+					}
+					if id, ok := as.Lhs[0].(*ast.Ident); ok && objOf(info, id) == objOf(info, root) {
+						if rc, ok := ast.Unparen(as.Rhs[0]).(*ast.CallExpr); ok {
+							if rf := callee(info, rc); rf != nil && (strings.HasPrefix(rf.Name(), "Resolve") || strings.HasPrefix(rf.Name(), "Locate")) {
+								resolves = true
+							}
+						}
+					}
+					return true
+				})
+			}
+			return true
+		})
+	}
 	r.Count("derivations of assignment constraints", 1)
-	r.Check(resolves, "derive/constraints-through-references", "ast.FieldAssignment constraints", fd.Pos(), "the constraints of the type the field refers to are carried by the assignment",
-		"FieldAssignment copies constraints only when the field's own type is a scalar: it never looks through a reference (nor into list / map elements) — Python: `name(\"toolong\")` on `name: #Name` with `#Name: string & strings.MaxRunes(5)` is accepted silently, while the same constraint written inline raises ValueError")
+	r.Check(resolves, "derive/constraints-through-references", "builder derivation follows references for constraints", dfd.Pos(), "the constraints of the scalar a field's reference resolves to are put on the assignment",
+		"the derivation copies constraints only when the field's own type is a scalar: it never looks through a reference — Python: `name(\"toolong\")` on `name: #Name` with `#Name: string & strings.MaxRunes(5)` is accepted silently, while the same constraint written inline raises ValueError")
+	// (b) elements of lists and maps
+	elements := false
+	for _, body := range []*ast.BlockStmt{fd.Body, dfd.Body} {
+		ast.Inspect(body, func(m ast.Node) bool {
+			if sel, ok := m.(*ast.SelectorExpr); ok && sel.Sel.Name == "ValueType" {
+				elements = true
+			}
+			return true
+		})
+	}
+	r.Check(elements, "derive/constraints-of-elements", "ast.FieldAssignment element constraints", fd.Pos(), "the constraints of list / map elements are looked at",
+		"the derivation never looks into the elements of a list or a map: `tags: [...string & strings.MinRunes(1)]` gives an option without any constraint — Python: tags([\"\"]).build() is accepted (Go's Build() calls the generated Validate(), which has the check)")
 }
